@@ -763,9 +763,38 @@ def findQueryResultClass : List RspKid → R Cls
     else findQueryResultClass rest
   | _ :: rest => findQueryResultClass rest
 
+def unpackBoolStrs : List (Option Str) → R Unit
+  | [] => pure ()
+  | none :: rest => unpackBoolStrs rest
+  | some s :: rest => do
+    let _ ← unpackBoolean s
+    unpackBoolStrs rest
+
 def pvIsNone : PV → Bool
   | .none => true
   | _ => false
+
+/-- mirrors the local helper `xml_cimvalue` of _methodcall: for PARAMTYPE boolean the text of VALUE
+    elements (a string, or the string items of a list) is converted with TupleParser.unpack_boolean
+    (invalid text: CIMXMLParseError, empty text: None); everything else goes through cimvalue().
+    Result: whether the converted value is None -/
+def xmlCimvalue (C : EnvCodec) (v : PV) (ty : Option Str) : R Bool :=
+  if ty = some "boolean".toList then
+    match v with
+    | .strs l => do
+      unpackBoolStrs l
+      pure false
+    | .paths _ => pure false
+    | .embs _ => pure false
+    | .str s => do
+      let b ← unpackBoolean s
+      pure b.isNone
+    | v => do
+      cimvalue C v ty
+      pure (pvIsNone v)
+  else do
+    cimvalue C v ty
+    pure (pvIsNone v)
 
 /-- mirrors _methodcall after the envelope checks -/
 def methodResult (C : EnvCodec) (kids : List RspKid) : R Res :=
@@ -776,8 +805,8 @@ def methodResult (C : EnvCodec) (kids : List RspKid) : R Res :=
   | _ => do
     let (rvNone, rest) ← (match kids with
       | .retval pt v :: rest => do
-        catchVT (cimvalue C v pt)
-        pure (pvIsNone v, rest)
+        let isNone ← catchVT (xmlCimvalue C v pt)
+        pure (isNone, rest)
       | _ => pure (true, kids))
     let outs ← outLoop rest
     pure (.invoke rvNone outs)
@@ -785,8 +814,8 @@ where
   outLoop : List RspKid → R (List Str)
     | [] => pure []
     | .param name pt v :: rest => do
-      if pt = some "reference".toList then pure ()
-      else catchVT (cimvalue C v pt)
+      let _ ← (if pt = some "reference".toList then pure false
+               else catchVT (xmlCimvalue C v pt))
       let r ← outLoop rest
       pure (name :: r)
     | _ :: _ => perr          -- ERROR / RETURNVALUE at an invalid position
